@@ -39,7 +39,8 @@ ASSUMPTIONS = [
 RULE = ("species 1..60 atoms (quick <= 15) with coordinates +-{1e-6..1e3} incl. near-zero negatives and exact rounding ties, charge -3..3, "
         "mult 1..5 (valid parity), solvent in {none + 7}, x {orca,g09,g16,nwchem,qchem,xtb,mopac} x {sp,grad,opt,optts,hess} default and "
         "custom keyword sets x distance/Cartesian constraints x point charges x active bonds x cores {1..16} x memory; plus xyz / trajectory "
-        "writers; a case is non-trivial when an input file was produced and re-read; distinct by the full case specification")
+        "writers; regeneration sequences (calculation register enabled, same directory: generate, change geometry / cores / memory / "
+        "constraints, generate again, re-read); TS optimisations of solvated species with every job of a multi-job input checked; a case is non-trivial when an input file was produced and re-read; distinct by the full case specification")
 
 SLICE = ["C17/Base.v", "C17/Decimal.v", "C17/Model.v", "C17/Lemmas.v", "C17/Props.v", "C17/Corr.v", "gen/C17_Gen.v"]
 PRE = ("From Coq Require Import ZArith QArith List String Bool.\nFrom AV.lib Require Import QcInst.\n"
@@ -136,6 +137,40 @@ def sections(lines):
             cur.append(ln)
     out.append(cur)
     return out
+
+
+def parse_qchem_job(text):
+    """One job of a (multi-job, @@@ separated) Q-Chem input: its $molecule, $rem and $smx sections."""
+    J = {"molecule": None, "charge": None, "mult": None, "atom_lines": [], "rem": {}, "smx": None, "sections": []}
+    sec, body = None, []
+    for ln in text.split("\n"):
+        t = ln.strip()
+        if sec is None and t.startswith("$") and t.lower() != "$end":
+            sec, body = t.lower(), []
+        elif sec is not None and t.lower() == "$end":
+            J["sections"].append(sec)
+            if sec == "$molecule":
+                if body and body[0].strip() == "read":
+                    J["molecule"] = "read"
+                elif body:
+                    J["molecule"] = "explicit"
+                    w = body[0].split()
+                    J["charge"], J["mult"] = (pint(w[0]), pint(w[1])) if len(w) == 2 else (None, None)
+                    J["atom_lines"] = body[1:]
+            elif sec == "$rem":
+                for b in body:
+                    w = b.split()
+                    if len(w) >= 2:
+                        J["rem"][w[0].lower()] = " ".join(w[1:])
+            elif sec == "$smx":
+                for b in body:
+                    w = b.split()
+                    if len(w) == 2 and w[0].lower() == "solvent":
+                        J["smx"] = w[1]
+            sec = None
+        elif sec is not None:
+            body.append(ln)
+    return J
 
 
 def parse_files(prog, files, main, n_atoms, n_pcs):
@@ -257,6 +292,7 @@ def parse_files(prog, files, main, n_atoms, n_pcs):
             elif in_bq:
                 R["pcs"].append((pdec(t[3]), pdec(t[0]), pdec(t[1]), pdec(t[2]), ln))
     elif prog == "qchem":
+        R["jobs"] = [parse_qchem_job(j) for j in text.split("@@@")]
         i = next((k for k, ln in enumerate(L) if ln.strip() == "$molecule"), None)
         if i is None:
             raise ValueError("no $molecule block")
@@ -557,8 +593,9 @@ class Rejected(Exception):
     pass
 
 
-def run_case(spec, workdir):
-    """Generate the input for one case on the implementation.  -> result dict"""
+def run_case(spec, workdir, registry=False):
+    """Generate the input for one case on the implementation.  -> result dict
+    registry=True leaves the package's default calculation register (.autode_calculations) enabled."""
     import autode as ade
     import autode.exceptions as aex
     from autode.calculations import Calculation
@@ -570,7 +607,10 @@ def run_case(spec, workdir):
     here = os.getcwd()
     os.chdir(workdir)
     old_core = ade.Config.max_core
-    os.environ["AUTODE_FIXUNIQUE"] = "False"
+    if registry:
+        os.environ.pop("AUTODE_FIXUNIQUE", None)      # executors.py:99: on unless the variable is "False"
+    else:
+        os.environ["AUTODE_FIXUNIQUE"] = "False"
 
     def fake_orca_run(params, output_filename, stderr_to_log=True):
         with open(output_filename, "w") as f:
@@ -627,6 +667,7 @@ def run_case(spec, workdir):
         res["error"] = f"{type(e).__name__}: {e}\n" + traceback.format_exc()[-1500:]
     finally:
         ade.Config.max_core = old_core
+        os.environ["AUTODE_FIXUNIQUE"] = "False"
         os.chdir(here)
     return res
 
@@ -790,6 +831,34 @@ def check_case(spec, res):
                 F.append((f"{prog}.execute|solvent", f"command line {params} lacks --gbsa {sn['prog']}"))
     elif P["solvent"] is not None:
         F.append((f"{site}|solvent", f"solvent {P['solvent']} in the file of a gas-phase species"))
+    # Q-Chem multi-job inputs (TS optimisation: Hessian @@@ TS search @@@ Hessian): EVERY job must describe the species
+    if prog == "qchem":
+        jobs = P.get("jobs") or []
+        is_ts = any("jobtype" in k.lower() and "ts" in k.lower() for k in res.get("requested_kw", []))
+        if is_ts and len(jobs) != 3:
+            F.append((f"{site}|job-count", f"{len(jobs)} jobs in the input of a TS optimisation (Hessian, TS search, Hessian expected)"))
+        for jn, J in enumerate(jobs):
+            where = f"job {jn + 1} of {len(jobs)}"
+            if "$rem" not in J["sections"] or J["molecule"] is None:
+                F.append((f"{site}|job-incomplete", f"{where} has sections {J['sections']}: $molecule and $rem are required"))
+                continue
+            if jn == 0 and J["molecule"] != "explicit":
+                F.append((f"{site}|job-incomplete", f"{where} does not carry the geometry"))
+            if J["molecule"] == "explicit":
+                if (J["charge"], J["mult"]) != (spec["charge"], spec["mult"]):
+                    F.append((f"{site}|charge", f"{where}: charge/multiplicity {J['charge']} {J['mult']}, species has {spec['charge']} {spec['mult']}"))
+                ja = [read_atom_line(ln, prog) for ln in J["atom_lines"]]
+                if len(ja) != n or any(a is None or a[0] != b[0] or any(abs(a[1 + c] - frac(b[1 + c])) > TOL for c in range(3))
+                                       for a, b in zip(ja, spec["atoms"])):
+                    F.append((f"{site}|coord-mismatch", f"{where}: the $molecule block does not list the species' atoms within 1e-5 A"))
+            if pint(J["rem"].get("mem_total", "")) != exp_mem:
+                F.append((f"{site}|memory", f"{where}: mem_total {J['rem'].get('mem_total')}, {spec['max_core_mb']} MB x {nc} cores needs {exp_mem}"))
+            if sn:
+                if J["rem"].get("solvent_method", "").lower() != "smd" or J["smx"] != sn["prog"]:
+                    F.append((f"{site}|solvent", f"{where}: solvent_method {J['rem'].get('solvent_method')!r}, $smx solvent {J['smx']!r}; "
+                              f"the species is in {sn['name']} ({sn['prog']}): every job must name it"))
+            elif J["smx"] is not None or "solvent_method" in J["rem"]:
+                F.append((f"{site}|solvent", f"{where} requests a solvent model for a gas-phase species"))
     # constraints
     is_opt = spec["kwtype"] in ("opt", "optts")
     want_d = {(min(i, j), max(i, j)): d for i, j, d in spec["dist"]}
@@ -948,6 +1017,64 @@ def coq_terms_for(spec, res, P, ctx):
         if P["pc_count"] is not None:
             parts.append(f"check_int {p} LNAtoms FN {cs(P['pc_count'][1])} {zz(len(spec['pcs']))}")
     return "all [" + ";\n    ".join(parts) + "]"
+
+
+# ----------------------------------------------------------------------------- regeneration in one directory
+def regen_variant(rng, spec, what=None):
+    """The same calculation (name, species name, charge, mult, keywords, solvent) after something the file must
+    reflect has changed: geometry, core count, memory, or the constraints."""
+    import copy
+    s2 = copy.deepcopy(spec)
+    what = what or rng.choice(["coords", "coords", "cores", "memory", "constraints"])
+    if what == "coords":
+        for a in s2["atoms"]:
+            for c in (1, 2, 3):
+                a[c] = a[c] + rng.choice([0.25, -0.5, 1e-3, 0.125])
+    elif what == "cores":
+        s2["n_cores"] = {1: 4, 2: 8, 4: 2, 8: 16, 16: 1}[spec["n_cores"]]
+    elif what == "memory":
+        s2["max_core_mb"] = 3000.0 if spec["max_core_mb"] != 3000.0 else 1250.0
+    else:
+        n = len(spec["atoms"])
+        s2["cart"] = sorted(set(range(n)) - set(spec["cart"]))[:3]
+    return what, s2
+
+
+def regen_cases(ctx, rng, n_per_prog, nmax, workdir, fail):
+    """generate_input twice in ONE directory with the calculation register enabled (the package default):
+    the second file set must describe the CURRENT species / settings.  -> (Coq terms, descriptions)"""
+    terms, descr = [], []
+    c = 0
+    for prog in PROGS:
+        for r in range(n_per_prog):
+            spec1 = gen_spec(rng, prog, rng.choice(KWTYPES), nmax)
+            if prog == "qchem":
+                spec1["pcs"] = []
+            what, spec2 = regen_variant(rng, spec1, ["coords", "cores", "memory", "constraints", None][min(r, 4)])
+            wd = os.path.join(workdir, f"r{c}")
+            c += 1
+            res1 = run_case(spec1, wd, registry=True)
+            res2 = run_case(spec2, wd, registry=True)
+            rep = {"kind": "regen", "changed": what, "specs": [spec1, spec2]}
+            ctx.count("regenerate", (prog, what, repr(spec2)), res2["main"] is not None,
+                      sample={"prog": prog, "changed": what, "kwtype": spec1["kwtype"], "n_atoms": len(spec1["atoms"])})
+            ctx.hist("regenerate", f"{prog}:{what}")
+            if res1["rejected"] or res1["error"]:
+                continue
+            F, P = check_case(spec2, res2)
+            for k, w in F:
+                site, cls = k.split("|", 1)
+                if cls == "distance-constraint-written-as-moved-atoms":
+                    fail(k, w, rep)
+                else:
+                    fail(f"{site}|regenerated-after-{what}-change:{cls}",
+                         f"second generate_input in the same directory after the {what} changed: " + w, rep)
+            if P is not None:
+                t = coq_terms_for(spec2, res2, P, ctx)
+                if t is not None:
+                    terms.append(t)
+                    descr.append(rep)
+    return terms, descr
 
 
 # ----------------------------------------------------------------------------- xyz / trajectory writers
@@ -1174,6 +1301,17 @@ def all_cases(ctx, full):
                       "pcs": [] if prog == "qchem" else [[1.0, 10.0, 1.0, 1.0]],
                       "bonds": [[0, 1]], "n_cores": 8, "max_core_mb": 2048.0, "max_cycles": 10, "molecule": True, "orca_v5": True})
         specs[-1]["mult"] = 1 if (sum(17 if a[0] == "Cl" else 6 for a in atoms)) % 2 == 0 else 2
+    # TS optimisations of solvated species: multi-job / multi-block inputs (Q-Chem: three jobs; ORCA: extra %geom block)
+    for prog in PROGS:
+        for src, solvent in (("default", "water"), ("custom", "dichloromethane")) + ((("default", "acetonitrile"),) if full else ()):
+            sp = gen_spec(rng, prog, "optts", min(nmax, 12))
+            sp.update({"kwsrc": src, "solvent": solvent, "pcs": [], "solv_type": "smd" if prog == "orca" and src == "custom" else
+                       ("cpcm" if prog == "orca" else None), "n_cores": rng.choice([2, 4, 8])})
+            if len(sp["atoms"]) == 1:
+                sp["atoms"].append(["H", 0.7, 0.1, -0.2])
+                sp["charge"], sp["mult"] = 0, 1 + sum(__import__("autode").atoms.Atom(a[0]).atomic_number for a in sp["atoms"]) % 2
+                sp["dist"], sp["cart"], sp["bonds"] = [], [], []
+            specs.append(sp)
     return specs
 
 
@@ -1236,6 +1374,11 @@ def run(ctx):
     if proofs_ok:
         terms += xt
         descr += xd
+    rt, rd = regen_cases(ctx, ctx.rng, 8 if full else 3, 30 if full else 10, os.path.join(ctx.work, "regen"), fail)
+    if proofs_ok:
+        terms += rt
+        descr += rd
+    ctx.log(f"regeneration sequences (register enabled, same directory): {7 * (8 if full else 3)}; oracle failures: {nfail}")
     explicit_solvent_case(ctx, os.path.join(ctx.work, "explicit"), fail)
     nu = untranslatable_cases(ctx, ctx.rng, os.path.join(ctx.work, "untr"), fail)
     ctx.log(f"xyz cases: {len(xt)}; untranslatable-keyword cases: {nu}; oracle failures: {nfail}")
@@ -1279,6 +1422,17 @@ def replay(ctx, obj):
         F, P = check_case(rep["spec"], res)
         for k, what in F:
             print("replay:", k, "->", what)
+        for fn, txt in res["files"].items():
+            print(f"----- {fn}\n{txt}")
+        n = len(F)
+    elif rep.get("kind") == "regen":
+        wd = os.path.join(ctx.work, "replay")
+        run_case(rep["specs"][0], wd, registry=True)
+        res = run_case(rep["specs"][1], wd, registry=True)
+        F, P = check_case(rep["specs"][1], res)
+        F = [(k, w) for k, w in F if not k.endswith("written-as-moved-atoms")]
+        for k, what in F:
+            print("replay (second generate_input in the same directory):", k, "->", what)
         for fn, txt in res["files"].items():
             print(f"----- {fn}\n{txt}")
         n = len(F)
